@@ -270,3 +270,35 @@ Theorem C09_first_retval_only_reader_refuted :
   (of_le (takeN 8 (dropN 8 (le_bytes 8 42 ++ next_rec))) / 8) mod 8 <> RECORD_MAGIC.
 Proof. exact first_retval_reader_refuted. Qed.
 Print Assumptions C09_first_retval_only_reader_refuted.
+
+(* ---------------------------------------------------------------- scripts: a second decoder of the same bytes *)
+(* utils/script-python.c / script-luajit.c setup_argument_context (model: script_one / script_loop, as the code is after the
+   fix: commits for the octal and the char format) decode task->args.data - at record time the frame's argument buffer -
+   on their own.  They step over every spec exactly like get_argspec_string ... *)
+Theorem C09_script_same_step : forall syms s data, snd (script_one s data) = snd (show_one syms s data).
+Proof. exact script_same_step. Qed.
+Print Assumptions C09_script_same_step.
+
+(* ... hence for EVERY spec list and EVERY payload both decoders read each value from the same bytes *)
+Theorem C09_script_same_positions : forall syms is_ret specs data,
+  positions (fun s d => snd (script_one s d)) is_ret specs data =
+  positions (fun s d => snd (show_one syms s d)) is_ret specs data.
+Proof. exact script_same_positions. Qed.
+Print Assumptions C09_script_same_positions.
+
+(* from the bytes stored for an integer-class spec (the chunk of C09_int_arg_roundtrip) a Python script receives an int
+   congruent to the word that was passed modulo 2^(8*size) *)
+Theorem C09_script_int : forall s w later,
+  script_int_fmt (s_fmt s) -> s_size s = 1 \/ s_size s = 2 \/ s_size s = 4 \/ s_size s = 8 ->
+  ok_sitem Py s (AInt w) (conv Py (fst (script_one s (takeN (ALIGN (s_size s) 4) (le_bytes 8 w) ++ later)))) = true.
+Proof. exact script_int_py. Qed.
+Print Assumptions C09_script_int.
+
+(* from the bytes of a stored string (the chunk of C09_str_arg_roundtrip) Lua receives exactly these bytes, Python these
+   bytes if they are valid UTF-8 and "<invalid value>" otherwise *)
+Theorem C09_script_string : forall l s fill body tl ahead later,
+  s_fmt s = FStr -> nz body -> lenN body < 65536 -> body <> [255; 255; 255; 255] ->
+  conv l (fst (script_one s (fit (ALIGN (lenN body + 2) 4) fill (over (le_bytes 2 (lenN body) ++ body ++ tl) ahead) ++ later)))
+  = match l with Py => if utf8_valid body then OStr body else OInvalid | Lua => OStr body end.
+Proof. exact script_str. Qed.
+Print Assumptions C09_script_string.
